@@ -31,6 +31,7 @@ type ledger struct {
 
 func TestC03(t *testing.T) {
 	r := core.NewRun(t, "C03")
+	r.Level = "fault_enumeration"
 	r.Rule = "seeded multi-chain histories (3 chains, ERC-20 tokens of two origins plus the native coin, forward and back transfers, with/without destination call data whose execution succeeds, reverts, runs out of gas, fails in a post-transaction hook (nested cross-chain call to an unknown chain, staking delegate without funds) or hits a bad receiver; relays and acks in random order). After EVERY delivered transaction the conservation ledger is compared with the contracts' own views (outTokens, bindings, balanceOf, totalSupply, bank balances, packetFees escrow). Non-trivial = a delivered transaction (distinct by history and position) after which the ledger was evaluated."
 	r.Assume("bindings use scale 0 (the ledger compares raw amounts)")
 	defer r.Finish()
